@@ -99,7 +99,7 @@ func (h *timeoutHandler) ServeHTTP(w http.ResponseWriter, r *http.Request) {
 
 		// We don't need to write header 200, because it's written by default.
 		// If we write it again, it will cause a warning: `http: superfluous response.WriteHeader call`.
-		if tw.code != http.StatusOK {
+		if tw.code != http.StatusOK && !tw.flushed {
 			w.WriteHeader(tw.code)
 		}
 		w.Write(tw.wbuf.Bytes())
@@ -129,6 +129,7 @@ type timeoutWriter struct {
 	mu          sync.Mutex
 	timedOut    bool
 	wroteHeader bool
+	flushed     bool
 	code        int
 }
 
@@ -141,9 +142,28 @@ func (tw *timeoutWriter) Flush() {
 		return
 	}
 
+	tw.mu.Lock()
+	defer tw.mu.Unlock()
+
+	// the timeout response has been written, nothing of the handler may follow it.
+	if tw.timedOut {
+		return
+	}
+
 	header := tw.w.Header()
 	for k, v := range tw.h {
 		header[k] = v
+	}
+
+	// like net/http, flushing sends the header, with the status the handler has set.
+	if !tw.wroteHeader {
+		tw.writeHeaderLocked(http.StatusOK)
+	}
+	if !tw.flushed {
+		tw.flushed = true
+		if tw.code != http.StatusOK {
+			tw.w.WriteHeader(tw.code)
+		}
 	}
 
 	tw.w.Write(tw.wbuf.Bytes())
